@@ -323,6 +323,17 @@ def evaluate_point(desc, i, ansP, stats):
             findings.extend(oracles.conformance(full, view, flags))
             if view.get("t") is not None:
                 stats["timed_points"] = stats.get("timed_points", 0) + 1
+            # ... and what the perturbed execution itself reported conforms as well
+            pert = None
+            if what == "FULL" and isinstance(a, dict):
+                pert = oracles.conformance(a, view, flags)
+            elif what in ("LIST", "LIST_TWICE") and isinstance(a, dict) and a.get("ops") is not None:
+                got_ms, want_ms = canon.leaf_multiset(a["ops"]), canon.leaf_multiset(view["ops"])
+                if got_ms != want_ms:
+                    pert = [oracles.F(["C02"], "content-differs-from-model", got=oracles._ms_diff(got_ms, want_ms))]
+            for f in pert or []:
+                f["oracle"] = "perturbed:" + f["oracle"]
+                findings.append(f)
         except ModelError as e:
             stats["model_errors"] = stats.get("model_errors", 0) + 1
     else:
